@@ -11,7 +11,7 @@ tvars == <<sc, l, s>>
 Ev == Rec[l]
 
 Asyncs == {"a1", "a2", "a3"}
-S0 == [alive |-> FALSE, faked |-> [a \in Asyncs |-> "none"]]
+S0 == [alive |-> FALSE, faked |-> [a \in Asyncs |-> "none"], fresh |-> {}]
 TraceInit == sc \in 1..NScen /\ l = First(sc) /\ s = S0
 Step(name) == l <= Last(sc) /\ Ev.ev = name /\ l' = l + 1 /\ sc' = sc
 
@@ -39,9 +39,17 @@ AsyncPair ==
   /\ s' = s
 
 ChildExit == Step("ChildExit") /\ Ev.signal = 0 /\ Ev.code = 0 /\ s' = s
-Other == l <= Last(sc) /\ Ev.ev \in {"Mmap", "Munmap", "Mprotect", "Write", "Flush", "Note"} /\ l' = l + 1 /\ sc' = sc /\ s' = s
+\* Installation order (Injectorpp!WriteEntry: "the entry is written only after ... the trampoline is complete"): other
+\* executor threads may be awaiting the function while it is being (re-)faked, so its entry must never lead into a
+\* trampoline that has not been written yet.  `fresh` = mappings obtained and not yet written or given back; the entry's
+\* page is made writable only when there is none.
+OsMmap    == Step("Mmap") /\ s' = IF Ev.ok THEN [s EXCEPT !.fresh = @ \cup {Ev.name}] ELSE s
+OsMunmap  == Step("Munmap") /\ s' = [s EXCEPT !.fresh = @ \ {Ev.name}]
+OsWrite   == Step("Write") /\ s' = IF Ev.region = "tramp" THEN [s EXCEPT !.fresh = @ \ {Ev.name}] ELSE s
+OsProtect == Step("Mprotect") /\ (Ev.writable => s.fresh = {}) /\ s' = s
+Other == l <= Last(sc) /\ Ev.ev \in {"Flush", "Note"} /\ l' = l + 1 /\ sc' = sc /\ s' = s
 
-TraceNext == AsyncPair \/ New \/ Fake \/ Drop \/ PanicDrop \/ Await \/ Shape \/ AsyncMismatch \/ ChildExit \/ Other
+TraceNext == AsyncPair \/ New \/ Fake \/ Drop \/ PanicDrop \/ Await \/ Shape \/ AsyncMismatch \/ ChildExit \/ Other \/ OsMmap \/ OsMunmap \/ OsWrite \/ OsProtect
 TraceSpec == TraceInit /\ [][TraceNext]_tvars
 Track == TrackProgress(sc, l)
 Post == PrintProgress
